@@ -360,6 +360,79 @@ def _sympl_event_times(chk):
             [BA + ":_propagate_dynsys", SY + ":_ExtendedSymplectic.integrate"], "B4 exact evaluation", th)
 
 
+def _ham_directed(chk):
+    """A polynomial Hamiltonian system propagated BACKWARD with a Runge-Kutta method: the driver that runs must integrate the
+    directed field (or the call must be rejected) - the parametric Hamiltonian fast path knows nothing about the direction."""
+    import hiten.algorithms.dynamics.base as base
+    import hiten.algorithms.integrators.rk as rk
+
+    class HS(base._DynamicalSystem):
+        def __init__(self):
+            self._dim = 2
+            self._rhs_compiled = None
+        n_dof = 1
+        jac_H = "J"
+        clmo_H = "C"
+        rhs_params = ("J", "C", 1)
+        clmo = "C"
+        dim = property(lambda self: 2)
+
+        def _build_rhs_impl(self):
+            return lambda t, y: y * (1.0 + t)
+
+        def dH_dQ(self, *a):
+            return None
+
+        def dH_dP(self, *a):
+            return None
+
+        def poly_H(self):
+            return None
+
+    def th():
+        for method, gen, ham in (("fixed", "_FixedStepRK._integrate_fixed_rk", "_FixedStepRK._integrate_fixed_rk_ham"),
+                                 ("adaptive", "_DOP853._integrate_dop853", "_DOP853._integrate_dop853_ham")):
+            rec = {}
+            gc, gn = gen.split(".")
+            hc, hn = ham.split(".")
+            saved = (getattr(getattr(rk, gc), gn), getattr(getattr(rk, hc), hn))
+
+            def generic(*a, **kw):
+                rec["generic"] = kw.get("f", a[0] if a else None)
+                n = len(kw.get("t_eval", a[2] if len(a) > 2 else [0, 1]))
+                return _np.zeros((n, 2)), _np.zeros((n, 2))
+
+            def hamiltonian(*a, **kw):
+                rec["ham"] = True
+                n = 4
+                return _np.zeros((n, 2)), _np.zeros((n, 2))
+            setattr(getattr(rk, gc), gn, staticmethod(generic))
+            setattr(getattr(rk, hc), hn, staticmethod(hamiltonian))
+            try:
+                try:
+                    base._propagate_dynsys(HS(), _np.array([1.0, 2.0]), 0.0, 1.5, forward=-1, steps=4, method=method, order=8)
+                except Exception as e:
+                    rec["rejected"] = repr(e)[:120]
+            finally:
+                setattr(getattr(rk, gc), gn, saved[0])
+                setattr(getattr(rk, hc), hn, saved[1])
+            if rec.get("ham"):
+                raise Refuted(f"backward propagation (forward=-1, method={method}) of a Hamiltonian system runs the parametric "
+                              f"Hamiltonian fast path, which ignores the direction: the forward flow is returned under negative "
+                              f"time stamps", str(rec), inputs={"method": method, "forward": -1})
+            if "generic" in rec:
+                yt = _np.array([0.5, -2.0])
+                got = _np.asarray(rec["generic"](0.25, yt), dtype=float)
+                if not _np.allclose(got, -yt * (1.0 - 0.25), rtol=0, atol=1e-15):
+                    raise Refuted(f"backward propagation of a Hamiltonian system (method={method}): the generic driver does not "
+                                  f"integrate the directed field", f"f_dir(0.25, y) = {got.tolist()}")
+            elif "rejected" not in rec:
+                raise Refuted(f"method={method}: no driver was called and nothing was raised", str(rec))
+    chk.obl("_propagate_dynsys(Hamiltonian system, forward=-1, method=fixed|adaptive): the directed field is integrated or the "
+            "call is rejected - never the direction-blind parametric fast path", "K2 wiring", [BA + ":_propagate_dynsys",
+            RK + ":_FixedStepRK.integrate", RK + ":_DOP853.integrate"], "B4 exact evaluation", th)
+
+
 def _zero_span(chk):
     """the constant-solution short cut is taken only for a span of exactly zero length"""
     import hiten.algorithms.dynamics.base as base
@@ -767,6 +840,7 @@ def run(chk):
     _directed(chk)
     _times(chk)
     _zero_span(chk)
+    _ham_directed(chk)
     _sympl_event_times(chk)
     # "samples are returned exactly at the requested times": the fixed-step driver on a symbolic NON-UNIFORM grid (shared
     # with C02: same real driver, same obligation)
